@@ -219,4 +219,26 @@ def x2(ctx, rep):
     # 8. chain depth limit
     RC = P + "complevel_estimator::CompLevelEstimatorState::<'a>::recommend"
     guard("max-chain-limit", RC, r"^Ge\(max_chain_found\(.*\), K4096\)$", "false", _ok_blocks)
+    # 9. decode_symbol walks the tree without any check of its own (root = len-2, child = tree[bit + node]); it is only safe
+    #    on the complete trees calculate_huffman_code_tree returns.  Every tree it is handed, and every tree stored in a
+    #    HuffmanReader, must therefore be the Ok payload of that constructor.
+    TREE = re.compile(r"^(deref\()?branch\((preflate_rs::)?huffman_helper::calculate_huffman_code_tree\(.*\)\) as Continue\.0\)?$")
+    FIELD = re.compile(r"^(deref\()?arg<&(mut )?preflate_rs::huffman_encoding::HuffmanReader>\.\w+\)?$")
+    nt = 0
+    for name, b in sorted(F.bodies.items()):
+        for bb, t in b.calls():
+            if strip_generics(callee_def(t)).endswith("huffman_helper::decode_symbol"):
+                nt += 1
+                d = flow.describe(b, t["args"][1])
+                rep.add("X2", "tree-from-validated-constructor:%s" % name.replace(P, "").split("::")[-1], bool(TREE.match(d) or FIELD.match(d)), b.where(bb),
+                        "decode_symbol(.., %s)" % d[:160])
+        for bb in sorted(b.normal_blocks()):
+            for s in b.stmts(bb):
+                r = s.get("r") or {}
+                if s.get("k") == "assign" and r.get("k") == "agg" and r.get("adt") == P + "huffman_encoding::HuffmanReader":
+                    nt += 1
+                    ds = [flow.describe(b, o) for o in r["ops"]]
+                    rep.add("X2", "reader-trees-validated:%s" % name.replace(P, "").split("::")[-1], all(TREE.match(d) for d in ds), b.where(bb),
+                            "HuffmanReader { %s }" % ", ".join("%s: %s" % (f, d[:90]) for f, d in zip(r["fields"], ds)))
+    rep.floor("X2", "tree-sites", nt, 5)
     rep.floor("X2", "guards", n, 7)
